@@ -560,6 +560,10 @@ func (r *Raft) pipelineSend(s *followerReplication, p AppendPipeline, nextIdx *u
 // pipelineDecode is used to decode the responses of pipelined requests.
 func (r *Raft) pipelineDecode(s *followerReplication, p AppendPipeline, stopCh, finishCh chan struct{}) {
 	defer close(finishCh)
+	// Once the decoder stops nobody consumes the pipeline any more: close it, so
+	// that a sender blocked on the pipeline's back-pressure is released and can
+	// see that we are done (otherwise replication to this peer stops for ever).
+	defer func() { _ = p.Close() }()
 	respCh := p.Consumer()
 	for {
 		select {
